@@ -327,6 +327,14 @@ fn viterbi_matrices<O, M: Model<O>>(
         }
     }
 
+    // A path ends in its last state with that state's end probability, as in `forward()`
+    // (`ln_one()` for models without an explicit end state).
+    if let Some(last) = observations.len().checked_sub(1) {
+        for s in hmm.states() {
+            vals[[last, *s]] += hmm.end_prob(s);
+        }
+    }
+
     (vals, from)
 }
 
